@@ -85,11 +85,14 @@ func evalCommand(line string) (string, string) {
 		x := command.Command(unhx(f[1]))
 		l := unhxList(f[2])
 		return hxs(string(x.Join(l...))), q(string(x)) + ".Join(" + strings.Join(l, ",") + ")"
+	case "go.cmd.history":
+		return cmdHistory(), line
 	}
 	return "bad-line", line
 }
 
 func runCommandStream(c *ctx) error {
+	c.emit("go.cmd.history 0", "command.history", true, "history")
 	n, m := 5, 5
 	if c.thoro {
 		n, m = 7, 6
